@@ -87,6 +87,23 @@ func gen(tier string, seed int64) []hx.Scenario {
 			}
 		}
 	}
+	// the goroutine-driven Protocol driver under a deterministic board
+	for _, fast := range []bool{false, true} {
+		for _, order := range []string{"id", "rev", "rot", "mixed"} {
+			for _, pc := range []protoCfg{
+				{n0: 3, t0: 2, absent: -1}, {n0: 3, t0: 2, absent: 2}, {n0: 4, t0: 3, absent: -1}, {n0: 4, t0: 3, absent: 0},
+				{n0: 3, t0: 2, absent: -1, reshare: "same", t1: 2}, {n0: 3, t0: 2, absent: -1, reshare: "grow", t1: 3},
+				{n0: 4, t0: 3, absent: -1, reshare: "shrink", t1: 2}, {n0: 4, t0: 3, absent: -1, reshare: "shrink-absent", t1: 2},
+			} {
+				if tier != "thorough" && (order == "rev" || (order == "mixed" && pc.reshare == "" )) {
+					continue
+				}
+				c := pc
+				c.fast, c.order = fast, order
+				out = append(out, hx.Scenario{Name: "pedersen-protocol", Cfg: c.String(), Run: func(x *hx.Ctx) { protoCase(x, c) }})
+			}
+		}
+	}
 	_ = fmt.Sprint
 	return out
 }
